@@ -244,6 +244,20 @@ func TestVerifC07(t *testing.T) {
 				v, _ = q("nosuchtype")
 				cases = append(cases, kc{"dispatch-input-type/" + c07QuoteNames[quote], top + "on:\n  workflow_dispatch:\n    inputs:\n      x:\n" + ind + "  type: " + v + "\njobs:\n  a:\n    runs-on: ubuntu-latest\n    steps:\n      - run: echo\n", `^input type of workflow_dispatch event must be one of`, above + 5, len(ind) + 9})
 				// glob: bad character (space) at index k of a ref pattern
+				// several bad characters in one pattern: each one is reported at its own column
+				{
+					pat := "aa b~c^d"
+					v, qo := q(pat)
+					for _, bad := range []struct {
+						re  string
+						off int
+					}{{`^character ' ' is invalid for branch and tag names`, 2}, {`^character '~' is invalid for branch and tag names`, 4}, {`^character '\^' is invalid for branch and tag names`, 6}} {
+						cases = append(cases,
+							kc{"glob-multi-char/block/" + c07QuoteNames[quote], top + "on:\n  push:\n    branches:\n" + ind + "- " + v + "\njobs:\n  a:\n    runs-on: ubuntu-latest\n    steps:\n      - run: echo\n", bad.re, above + 4, len(ind) + 3 + qo + bad.off},
+							kc{"glob-multi-char/flow/" + c07QuoteNames[quote], top + "on:\n  push:\n" + jind + "  tags: [main, " + v + "]\njobs:\n  a:\n    runs-on: ubuntu-latest\n    steps:\n      - run: echo\n", bad.re, above + 3, len(jind) + 16 + qo + bad.off},
+						)
+					}
+				}
 				for k := 1; k <= 4; k++ {
 					pat := strings.Repeat("a", k) + " b"
 					v, qo := q(pat)
